@@ -89,9 +89,80 @@ def run(ctx):
                 shape['vweights'] = {i: [min(x, 0.0) for x in w] for i, w in shape['vweights'].items()}
             done += 1
             one_grammar(ctx, shape, rec, lin, modes)
+            if done % (10 if ctx.quick else 5) == 1:
+                cli(ctx, shape, rec, lin)
     finally:
         for s in modes.values():
             s.close()
+
+
+def cli(ctx, shape, recursive, linear):
+    """the command-line program as shipped (`#!/usr/bin/env -S python3 -OO`): bin/sum_product.py on the JSON of the
+    grammar must print the value (and, with -G, the gradients) that sum_product returns in-process; with one factor
+    removed from the file and passed with -w instead, the same again"""
+    import os, subprocess, sys, tempfile
+    from fggs import formats
+    from . import o_server
+    jshape = json.loads(json.dumps(shape))
+    method = ctx.rng.choice(['fixed-point', 'newton'] + (['linear'] if linear else []))
+    jp = ctx.rng.random() < 0.3
+    try:
+        ref = o_server.evaluate(dict(shape=json.loads(json.dumps(jshape)), semiring='real', method=method, j_precompute=jp, dtype='float64', grad=True))
+    except Exception:
+        return
+    if ref.get('warned') or not all(math.isfinite(v) for v in ref['value']):
+        return
+    fgg, info = semgen.build(o_server.fix(json.loads(json.dumps(jshape))), 'real', torch.float64)
+    j = formats.fgg_to_json(fgg)
+    names = [el.name for el in info['TL']]
+    case = dict(shape=shape, cli=dict(method=method, j_precompute=jp))
+    for variant in ('file', 'w-option'):
+        jj = json.loads(json.dumps(j))
+        extra = []
+        if variant == 'w-option':
+            if not names:
+                continue
+            nm = ctx.rng.choice(names)
+            w = jj['interpretation']['factors'].pop(nm)['weights']
+            extra = ['-w', nm, json.dumps(w)]
+        with tempfile.TemporaryDirectory(prefix='fggs-verif-cli-') as d:
+            f = os.path.join(d, 'g.json')
+            with open(f, 'w') as fh:
+                json.dump(jj, fh)
+            cmd = [sys.executable, '-OO', '/repo/bin/sum_product.py', f, '-d', '-m', method, '-l', '1e-10', '-k', '3000', '-G'] + (['-j'] if jp else []) + extra
+            env = dict(os.environ, PYTHONPATH='/repo')
+            r = subprocess.run(cmd, capture_output=True, text=True, env=env, timeout=600)
+        ctx.evaluations += 1
+        ctx.count(f'cli.{variant}')
+        ctx.case(dict(case, variant=variant), ('cli', repr(shape), variant), sample_every=3)
+        if r.returncode != 0:
+            tags = ['cli', 'cli-error'] + (['in:J_precompute_products'] if 'J_precompute_products' in r.stderr else [])
+            ctx.fail(f'bin/sum_product.py ({variant}) exited with {r.returncode}: {r.stderr.strip().splitlines()[-1][:120] if r.stderr.strip() else ""}',
+                     dict(case, variant=variant, cmd=cmd[3:]), r.stderr[-400:], ref['value'], tags=tags + ['real', method, f'j_precompute={jp}'])
+            continue
+        lines = [l for l in r.stdout.splitlines() if l.strip()]
+        try:
+            val = json.loads(lines[0])
+            flatv = torch.tensor(val, dtype=torch.float64).reshape(-1).tolist()
+            grads = {l.split(':', 1)[0][5:-1]: torch.tensor(json.loads(l.split(':', 1)[1]), dtype=torch.float64).reshape(-1).tolist()
+                     for l in lines[1:] if l.startswith('grad[')}
+        except Exception as e:  # noqa
+            ctx.fail(f'bin/sum_product.py ({variant}) printed something unreadable', dict(case, variant=variant), r.stdout[-300:], None, tags=['cli', 'cli-output'])
+            continue
+        rtol = 1e-6 if recursive else 1e-9
+        if len(flatv) != len(ref['value']) or not all(close(a, b, rtol) for a, b in zip(flatv, ref['value'])):
+            ctx.fail(f'bin/sum_product.py ({variant}) prints a value different from sum_product in-process', dict(case, variant=variant), flatv, ref['value'],
+                     tags=['cli', 'cli-value', 'real', method, f'j_precompute={jp}'])
+        if ref.get('grads') is not None:
+            for nm, g in zip(names, ref['grads']):
+                got = grads.get(nm)
+                want = g if g is not None else None
+                if want is None:
+                    continue
+                if got is None or len(got) != len(want) or not all(close(a, b, 10 * rtol) for a, b in zip(got, want)):
+                    ctx.fail(f'bin/sum_product.py ({variant}) prints a gradient for {nm} different from backward() in-process', dict(case, variant=variant), got, want,
+                             tags=['cli', 'cli-grad', 'real', method, f'j_precompute={jp}'])
+                    break
 
 
 def one_grammar(ctx, shape, recursive, linear, modes):
